@@ -1,6 +1,7 @@
 package props
 
 import (
+	"go/types"
 	"fmt"
 	"go/token"
 	"strings"
@@ -17,6 +18,35 @@ func init() {
 
 // storageSide renders the Side of a fix.StorageID argument ("Outgoing"/"Incoming"/"?").
 func storageSide(v ssa.Value) string {
+	// the identifier may travel as a field of a small bundle built by a helper: out := s.outgoing(); … out.id …
+	for i := 0; i < 3; i++ {
+		ld, isLd := v.(*ssa.UnOp)
+		if !isLd {
+			break
+		}
+		fa, isFA := ld.X.(*ssa.FieldAddr)
+		if !isFA {
+			break
+		}
+		w, idx := an.LocalStructField(fa)
+		if w == nil {
+			break
+		}
+		if idx < 0 {
+			v = w
+			continue
+		}
+		outer, okO := an.StructLit(w)
+		st, isSt := an.Deref(fa.X.Type()).Underlying().(*types.Struct)
+		if !okO || !isSt || idx >= st.NumFields() {
+			break
+		}
+		fv, has := outer[an.FieldName(st.Field(idx))]
+		if !has {
+			break
+		}
+		v = fv
+	}
 	lit, ok := an.StructLit(v)
 	if !ok {
 		return "?"
@@ -53,17 +83,15 @@ func runC10(c *core.Ctx, o Options) {
 			}
 		}
 		tr := an.Render(target)
-		paths, _ := an.EnumPaths(rh, 4096)
+		paths, _ := an.EnumPathsX(rh, 4096)
 		var bad2, bad5 []string
 		nMsg, nOpen, nClosed := 0, 0, 0
 		var msgsCall *ssa.Call
 		for _, p := range paths {
 			var call *ssa.Call
-			for _, b := range p.Blocks {
-				for _, in := range b.Instrs {
-					if cl, ok := in.(*ssa.Call); ok && cl.Call.IsInvoke() && cl.Call.Method.Name() == "Messages" && an.TypeIs(cl.Call.Value.Type(), "session", "MessageStorage") {
-						call = cl
-					}
+			for _, in := range p.InstrSeq() {
+				if cl, ok := in.(*ssa.Call); ok && cl.Call.IsInvoke() && cl.Call.Method.Name() == "Messages" && an.TypeIs(cl.Call.Value.Type(), "session", "MessageStorage") {
+					call = cl
 				}
 			}
 			if call == nil {
@@ -74,11 +102,11 @@ func runC10(c *core.Ctx, o Options) {
 			if sd := storageSide(call.Call.Args[0]); sd != "outgoing" {
 				bad2 = append(bad2, "messages are looked up on side "+sd)
 			}
-			from := an.Render(an.ResolveOnPath(call.Call.Args[1], p))
+			from := an.RenderOnPath(call.Call.Args[1], p)
 			if from != tr+".BeginSeqNo()" {
 				bad2 = append(bad2, "lower bound is "+from+", not BeginSeqNo() of the parsed request")
 			}
-			to := an.Render(an.ResolveOnPath(call.Call.Args[2], p))
+			to := an.RenderOnPath(call.Call.Args[2], p)
 			endExpr := tr + ".EndSeqNo()"
 			beginExpr := tr + ".BeginSeqNo()"
 			switch {
@@ -283,6 +311,24 @@ func runC10(c *core.Ctx, o Options) {
 				}
 			}
 			c.Check(n == 0, "Y6", "inbound:Logon", "every successful logon path runs the gap check", lf.Pos(), "gap check follows each transition to SuccessfulLogged", fmt.Sprintf("%d logon path(s) skip the gap check", n))
+			// … on the Logon that was received (its MsgSeqNum is the peer's), not on a Logon of the session's own making
+			nCall, wrong := 0, ""
+			for _, t := range s.tr.Traces(lf, m.AllStates) {
+				_, ue := unmarshalOutcome(t)
+				if ue == nil || len(ue.Args) == 0 {
+					continue
+				}
+				for _, e := range t.Events {
+					if e.Kind == "enter" && e.Name == "processIncSeq" && len(e.Args) >= 2 {
+						nCall++
+						if e.Args[1] != ue.Args[0] && an.Render(e.Args[1]) != an.Render(ue.Args[0]) {
+							wrong = e.R(e.Args[1])
+						}
+					}
+				}
+			}
+			c.Check(wrong == "" && nCall > 0, "Y6", "inbound:Logon", "the gap check is made on the received Logon", lf.Pos(), "processIncSeq(<the decoded message>)", "processIncSeq is handed "+wrong+", not the Logon that was decoded from the peer's bytes: the number compared with the expected one is not the peer's, so a gap is never (or always) seen")
+
 		}
 	}
 	// ---- Y6 premise: the gap check compares the Logon's number with the incoming counter, so the all-types handler that tracks
@@ -326,6 +372,7 @@ func runC10(c *core.Ctx, o Options) {
 	} else {
 		c.Ob("Y9", "start", "all-types incoming handler restores the logged-on state", 0).Fail("no all-types incoming handler is registered when the timers start: in WaitingTestReqAnswer a ResendRequest would be rejected instead of served")
 	}
+	c.Explanation += " Y6 also requires that processIncSeq is handed the very message the Logon handler decoded from the peer's bytes (not a Logon of the session's own making, whose number is not the peer's)."
 	c.RuleMin = map[string]int{"Y1": 1, "Y2": 3, "Y3": 1, "Y4": 2, "Y5": 1, "Y6": 4, "Y7": 3, "Y8": 3, "Y9": 1}
 	c.MinObl = 8
 }
@@ -442,14 +489,12 @@ func (s *sess) checkSaveHandler(rule string) {
 		fn := outs[0].Fn
 		var bad []string
 		nSave := 0
-		paths, _ := an.EnumPaths(fn, 64)
+		paths, _ := an.EnumPathsX(fn, 64)
 		for _, p := range paths {
 			var save *ssa.Call
-			for _, b := range p.Blocks {
-				for _, in := range b.Instrs {
-					if call, ok := in.(*ssa.Call); ok && call.Call.IsInvoke() && call.Call.Method.Name() == "Save" && an.TypeIs(call.Call.Value.Type(), "session", "MessageStorage") {
-						save = call
-					}
+			for _, in := range p.InstrSeq() {
+				if call, ok := in.(*ssa.Call); ok && call.Call.IsInvoke() && call.Call.Method.Name() == "Save" && an.TypeIs(call.Call.Value.Type(), "session", "MessageStorage") {
+					save = call
 				}
 			}
 			if save == nil {
@@ -457,16 +502,16 @@ func (s *sess) checkSaveHandler(rule string) {
 				continue
 			}
 			nSave++
-			if save.Call.Args[1] != ssa.Value(an.HandlerArg(fn)) {
-				bad = append(bad, "the value saved is not the message being sent: "+an.Render(save.Call.Args[1]))
+			if an.ResolveOnPath(save.Call.Args[1], p) != ssa.Value(an.HandlerArg(fn)) {
+				bad = append(bad, "the value saved is not the message being sent: "+an.RenderOnPath(save.Call.Args[1], p))
 			}
-			if r := an.Render(save.Call.Args[2]); r != an.Render(an.HandlerArg(fn))+".HeaderBuilder().MsgSeqNum()" {
+			if r := an.RenderOnPath(save.Call.Args[2], p); r != an.Render(an.HandlerArg(fn))+".HeaderBuilder().MsgSeqNum()" {
 				bad = append(bad, "the message is saved under "+r+", not under its own MsgSeqNum")
 			}
 			if sd := storageSide(save.Call.Args[0]); sd != "outgoing" {
 				bad = append(bad, "saved on side "+sd)
 			}
-			if len(p.Results) != 1 || p.Results[0] != "("+an.Render(save)+" == nil)" {
+			if len(p.Results) != 1 || p.Results[0] != "("+an.RenderOnPath(save, p)+" == nil)" {
 				bad = append(bad, "the handler does not return (Save error == nil): "+strings.Join(p.Results, ","))
 			}
 		}
